@@ -214,8 +214,43 @@ def manifest_items(path):
     return res
 
 
+SRC_DIRS = ("src", "fpdec-core/src", "fpdec-macros/src")
+
+
+def crate_items():
+    """facts about the crates as a whole that decide WHICH code is compiled and WHICH function a name refers to, wherever
+    they occur (also inside inline modules and in files no property is anchored in): the list of source files, every
+    `mod` declaration with its attributes (#[path], #[cfg]), every impl header, every macro_rules! name, every include!"""
+    files, mods, impls, macros, includes = [], [], [], [], []
+    for base in SRC_DIRS:
+        for d, _, names in os.walk(os.path.join(REPO, base)):
+            for nm in sorted(names):
+                rel = os.path.relpath(os.path.join(d, nm), REPO)
+                files.append(rel)
+                try:
+                    txt = strip_comments(open(os.path.join(d, nm), encoding="utf-8").read())
+                except (OSError, UnicodeDecodeError):
+                    continue
+                for m in re.finditer(r"((?:#!?\[[^\]]*\]\s*)*)(?:pub(?:\([a-z ]+\))?\s+)?mod\s+(\w+)\s*([;{])", txt):
+                    attrs = re.sub(r"\s+", "", m.group(1))
+                    if "cfg(test)" in attrs or "fpdec_verif" in attrs:
+                        continue
+                    attrs = re.sub(r"#\[(doc|allow|warn|deny|inline)[^\]]*\]", "", attrs)
+                    mods.append("%s:%s mod %s%s" % (rel, attrs, m.group(2), m.group(3)))
+                for m in re.finditer(r"\bimpl\b([^{;]*)\{", txt):
+                    impls.append("%s: impl %s" % (rel, re.sub(r"\s+", " ", m.group(1)).strip()))
+                for m in re.finditer(r"\bmacro_rules!\s*(\w+)", txt):
+                    macros.append("%s: %s" % (rel, m.group(1)))
+                for m in re.finditer(r"\binclude(?:_str|_bytes)?!\s*\(([^)]*)\)", txt):
+                    includes.append("%s: %s" % (rel, re.sub(r"\s+", "", m.group(1))))
+    dig = lambda l: hashlib.sha1("\n".join(sorted(l)).encode()).hexdigest()[:16]
+    return {"source files": dig(files), "mod declarations": dig(mods), "impl headers": dig(impls),
+            "macro_rules names": dig(macros), "include! uses": dig(includes)}
+
+
 def current():
     c = {f: items(os.path.join(REPO, f)) for f in all_files()}
+    c["(crates)"] = crate_items()
     for mf in MANIFESTS:
         c[mf] = manifest_items(os.path.join(REPO, mf))
     return c
@@ -309,7 +344,7 @@ def changed_for(pid):
         ch, ad = diff_file(cur.get(f, {}), rec.get(f, {}))
         out += ["%s :: %s" % (f, k) for k in ch if rx is None or re.search(rx, k) or k == "use declarations"]
     # what is compiled at all: features, dependencies, profiles, build scripts of the three manifests (every property)
-    for mf in MANIFESTS:
+    for mf in MANIFESTS + ["(crates)"]:
         ch, ad = diff_file(cur.get(mf, {}), rec.get(mf, {}))
         out += ["%s :: %s" % (mf, k) for k in ch + ad]
     return out
